@@ -7,6 +7,10 @@ kind) injection is executed; the culprit line is known by construction.
 
 import hashlib
 import io
+import os
+import shutil
+import tempfile
+from urllib.request import pathname2url
 
 import ZConfig
 import ZConfig.loader
@@ -56,8 +60,12 @@ SCHEMA_URL = "file:///sim/schema/s.xml"
 # 'override': loadConfig with one valid command-line override that addresses
 # a key of the text (the extended matchers of ZConfig.cmdline then read the
 # file); positions of faults in the FILE are what they are without overrides
+# 'relfile': one ConfigLoader, created while another directory was current,
+# is handed a REAL file opened by its relative name (no explicit url): the
+# resource's URL is that of the file that was opened
 MODES = ["url", "loader", "file+url", "file-nourl", "namedfile+url",
-         "override"]
+         "override", "relfile"]
+RELFILE_URL = "file:///SCRATCH/a/top.conf"
 
 
 class NamedStringIO(io.StringIO):
@@ -72,7 +80,7 @@ def generate(rng, tier, index):
     mode = rng.choice(MODES)
     ncuts = rng.choice([0, 1, 1, 2, 3])
     uni = layout.cut(rng, lines, ncuts=ncuts, decoys=False)
-    if mode == "file-nourl":
+    if mode in ("file-nourl", "relfile"):
         top = uni["top"]
         new = []
         for ln in uni["res"][top]:
@@ -129,12 +137,22 @@ def _override_pool(rng, uni):
 
 
 def _load(schema, world, res, top, mode, eol=None, loader=None,
-          override=None):
+          override=None, scratch=None):
     eol = eol or {}
     world.store = {u: TF.join(ls, *eol.get(u, ("\n", True)))
                    for u, ls in res.items()}
     if mode == "loader":
         return loader.loadURL(top)
+    if mode == "relfile":
+        with open(os.path.join(scratch, "a", "top.conf"), "w",
+                  encoding="utf-8", newline="") as f:
+            f.write(world.store[top])
+        os.chdir(os.path.join(scratch, "a"))
+        try:
+            with open("top.conf", encoding="utf-8", newline="") as f:
+                return loader.loadFile(f)
+        finally:
+            os.chdir(os.path.join(scratch, "b"))
     if mode == "override":
         return ZConfig.loadConfig(schema, top, [override])
     if mode == "url":
@@ -154,6 +172,8 @@ def check(inj, o, top, mode):
     want_url = curl
     if mode == "file-nourl" and curl == top:
         want_url = None
+    if mode == "relfile" and curl == top:
+        want_url = RELFILE_URL
     if not o.get("cfgerr"):
         bad.append(("class", "non-configuration error %s escaped" % o["cls"]))
         return bad
@@ -182,6 +202,33 @@ def check(inj, o, top, mode):
 
 
 def execute(plan):
+    if plan["mode"] != "relfile":
+        return _execute(plan, None)
+    cwd = os.getcwd()
+    scratch = os.path.realpath(tempfile.mkdtemp(prefix="zcsim-c08-"))
+    try:
+        os.mkdir(os.path.join(scratch, "a"))
+        os.mkdir(os.path.join(scratch, "b"))
+        # a like-named file in the directory the loader was created in
+        with open(os.path.join(scratch, "b", "top.conf"), "w") as f:
+            f.write("# not the file that is loaded\n")
+        os.chdir(os.path.join(scratch, "b"))
+        return _execute(plan, scratch)
+    finally:
+        os.chdir(cwd)
+        shutil.rmtree(scratch, ignore_errors=True)
+
+
+def _unscratch(o, scratch):
+    """The scratch directory's name is not part of the scenario."""
+    if scratch and not o.get("ok"):
+        for k in ("url", "msg"):
+            if isinstance(o.get(k), str):
+                o[k] = o[k].replace(pathname2url(scratch), "/SCRATCH")
+    return o
+
+
+def _execute(plan, scratch):
     ir, uni, mode = plan["ir"], plan["uni"], plan["mode"]
     top = uni["top"]
     out = {"evaluations": 0, "digests": [], "fired": {}, "probes": {},
@@ -199,14 +246,14 @@ def execute(plan):
         w.begin_op("baseline")
         eol = plan.get("eol")
         loader = None
-        if mode == "loader":
+        if mode in ("loader", "relfile"):
             loader = ZConfig.loader.ConfigLoader(schema)
         bloader = loader
         if mode == "loader" and not plan.get("loader_baseline", True):
             bloader = ZConfig.loader.ConfigLoader(schema)
         bo = ops.config_outcome(
             lambda: _load(schema, w, base_res, top, mode, eol, bloader,
-                          plan.get("override")))
+                          plan.get("override"), scratch))
         out["evaluations"] += 1
         if not bo["ok"]:
             out["waste"] += 1
@@ -224,7 +271,7 @@ def execute(plan):
                     w.begin_op("inject-before")
                     ops.config_outcome(lambda: _load(
                         schema, w, res0, top, mode, eol, loader,
-                        plan.get("override")))
+                        plan.get("override"), scratch))
                     out["evaluations"] += 1
         else:
             injs = TF.enumerate_injections(ir, uni, plan.get("kinds"))
@@ -235,9 +282,9 @@ def execute(plan):
             served.append(inj)
             res = TF.apply(base_res, inj)
             w.begin_op("inject")
-            o = ops.config_outcome(
+            o = _unscratch(ops.config_outcome(
                 lambda: _load(schema, w, res, top, mode, eol, loader,
-                              plan.get("override")))
+                              plan.get("override"), scratch)), scratch)
             out["evaluations"] += 1
             if o["ok"]:
                 out["waste"] += 1
